@@ -257,6 +257,7 @@ func runC01History(r *rand.Rand, parentKind string, nops int, h *c01hist) (key, 
 			want := view.Range(start, end, asc)
 			h.logf("open-iter [%s,%s) asc=%v", kvmodel.Hex(start), kvmodel.Hex(end), asc)
 			var got []kvmodel.KV
+			var second [2]string
 			p, st := ev.Try(func() {
 				defer it.Close()
 				it.Valid()
@@ -271,6 +272,22 @@ func runC01History(r *rand.Rand, parentKind string, nops int, h *c01hist) (key, 
 				for i, n := 0, 1+r.Intn(3); i < n; i++ {
 					mutateTop()
 				}
+				// other iterators opened (and drained, or left half-way) while the first one is still open must see
+				// the current overlay and must not disturb the first one
+				for k, n2 := 0, r.Intn(3); k < n2; k++ {
+					s2, e2 := kg.Bound(r), kg.Bound(r)
+					asc2 := r.Intn(2) == 0
+					v2 := model.Top()
+					h.logf("  second-iter [%s,%s) asc=%v", kvmodel.Hex(s2), kvmodel.Hex(e2), asc2)
+					if kk, ww := checkIter(top(), v2, s2, e2, asc2, "iterator opened while another is open"); kk != "" {
+						second = [2]string{"second-" + kk, ww}
+						break
+					}
+					h.counts["second_iterators_while_open"]++
+					if r.Intn(2) == 0 {
+						mutateTop()
+					}
+				}
 				for it.Valid() {
 					got = append(got, kvmodel.KV{K: append([]byte{}, it.Key()...), V: append([]byte{}, it.Value()...)})
 					if len(got) > len(view)+5 {
@@ -282,6 +299,9 @@ func runC01History(r *rand.Rand, parentKind string, nops int, h *c01hist) (key, 
 			h.counts["iter_with_mutation"]++
 			if p != nil {
 				return "iter-mutate-panic", fmt.Sprintf("iterator with writes while open panicked: %v\n%s", p, st)
+			}
+			if second[0] != "" {
+				return second[0], second[1]
 			}
 			if !kvmodel.EqualKVs(got, want) {
 				return "iter-mutate-mismatch", fmt.Sprintf("iterator [%s,%s) asc=%v opened before writes: got %s want (overlay at open) %s", kvmodel.Hex(start), kvmodel.Hex(end), asc, kvmodel.FmtKVs(got), kvmodel.FmtKVs(want))
@@ -385,7 +405,7 @@ func runC01History(r *rand.Rand, parentKind string, nops int, h *c01hist) (key, 
 var c01done int64
 
 func checkC01(r *ev.Run) {
-	n := r.N(3000, 200000)
+	n := r.N(20000, 400000)
 	r.Rule("history = parent kind (MemDB | prefix view | IAVL working tree | IAVL with committed base | MemDB with mutation spy) + 30-120 ops (get/has/set/delete/iter/reverse-iter/open-iter-then-write/push/write/discard) over <=12 hot keys from alphabet {00,01,61,62,7f,fe,ff}, nesting <=3, PRNG stream (seed, case). Non-trivial = a Write happened AND (a tombstone shadowed a parent key OR delete-then-reset) AND an iterator range cut through present keys; distinct = digest of the op log.")
 	r.Assume("layers obey stack discipline (a lower layer is touched again only after the layers above were written or discarded); cachekv memoises parent reads")
 	r.Assume("an iterator opened at step t is expected to yield the overlay as of t (writes while open go to the same layer)")
